@@ -228,6 +228,20 @@ def r7_1(ctx, R, mus, placement_only=False):
     ctx.floor("R7.1", "drain-sites-in-join-polls", n, 2)
 
 
+def _under_none_per_arrival(b, fl, bb, drains):
+    """Every feasible arrival at bb knows the (last) drain result to be Ready(None) -- the verdict may have travelled through
+    an enum returned by an inlined helper and a join."""
+    from lib_flow import arrival_knowledge
+    ak = arrival_knowledge(b, fl, bb)
+    if not ak:
+        return False
+    for dbb, dt in drains:
+        dest = place_str(dt["dest"])
+        if all(k_.get(dest) == "Ready" and k_.get("(%s as Ready).0" % dest) == "None" for k_ in ak):
+            return True
+    return False
+
+
 def r7_2(ctx, R, mus):
     ctx.rule("R7.2", "conversion only under I7: every MaybeUninit-erasing pointer cast / transmute / assume_init* in the "
                      "impls of the buffer structs is in a block where the drain result is known Ready(None), and its "
@@ -270,6 +284,8 @@ def r7_2(ctx, R, mus):
                     fs = vf.get(bb, frozenset())
                     if (dest, "Ready") in fs and ("(%s as Ready).0" % dest, "None") in fs:
                         under_none = True
+                if not under_none:
+                    under_none = _under_none_per_arrival(b, fl, bb, drains)
                 taken = False
                 for c in expr_calls(e):
                     if re.search(RE_REPLACE, c[1] or ""):
@@ -400,6 +416,8 @@ def r7_5(ctx, R, mus):
                 fs = vf.get(bb, frozenset())
                 under_none = any((place_str(dt["dest"]), "Ready") in fs and ("(%s as Ready).0" % place_str(dt["dest"]), "None") in fs
                                  for dbb, dt in drains)
+                if not under_none:
+                    under_none = _under_none_per_arrival(b, fl, bb, drains)
                 from_buf = any(re.search(RE_REPLACE, c[1] or "") for c in expr_calls(v))
                 is_err = v[0] == "agg" and v[1].endswith("Result::Err")
                 err_ok = False
@@ -447,7 +465,7 @@ def r7_6(ctx, R):
             if not (e[0] == "agg" and e[1].startswith(sm + "::")):
                 continue
             n += 1
-            ops = dict(zip(e[3], e[2]))
+            ops = __import__('lib_inter').flat_ops(ctx, e)
             sl = ops.get(slots_field)
             cnt = ops.get(counter[1:]) if counter else None
             # the storage value: strip conversions (into / into_boxed_slice / Pin::from / Box::into_pin)
